@@ -170,9 +170,6 @@ def check_case(case, V, dask, chk, catalog, setters=True):
               ("to_dask.compute", lambda: s.to_dask_array().compute(scheduler="synchronous"))]
     if a["dtype"] in ("str", "object"):
         copies = copies[:4]
-    if len(s) == 0:
-        # dask's "auto" chunking divides by the array size: rechunk() of an empty array is a dask limitation
-        copies = [c for c in copies if c[0] != "rechunk"]
     for name, f in copies:
         try:
             c2 = f()
